@@ -133,6 +133,37 @@ pub fn run(input: &str, output: &str) -> Value {
         writeln!(out, "{}", json!({"kind": "fmt", "text": txt, "inform": true, "finform": false, "exp": {}, "got": {}, "fgot": [], "fexp": {}, "fcanon": {}, "bexp": [], "bool": [], "panic": false, "same": same})).unwrap();
         n += 1;
     }
+    // widths beyond 64 bit: the same number in every lexical form gives the same value (or nothing, where it does not fit)
+    let wide: [u128; 6] = [1u128 << 64, (1u128 << 64) + 1, (1u128 << 100) + 12345, i128::MAX as u128, (i128::MAX as u128) + 1, u128::MAX];
+    for v in wide {
+        let forms = [format!("{v}"), format!("0x{v:x}"), format!("0X{v:X}"), format!("0b{v:b}"), format!("0{v:o}")];
+        let mut same = true;
+        for f in &forms {
+            let cd = CharacterData::String(f.clone());
+            same &= cd.parse_integer::<u128>() == Some(v);
+            same &= cd.parse_integer::<i128>() == i128::try_from(v).ok();
+            same &= cd.parse_integer::<u64>().is_none() && cd.parse_integer::<i64>().is_none();
+        }
+        writeln!(out, "{}", json!({"kind": "fmt", "text": format!("{v} in decimal, hexadecimal, binary and octal form as u128 / i128 / u64 / i64"), "inform": true, "finform": false, "exp": {}, "got": {}, "fgot": [], "fexp": {}, "fcanon": {}, "bexp": [], "bool": [], "panic": false, "same": same})).unwrap();
+        n += 1;
+    }
+    // the boundaries of every width in every form
+    let mut edge_ok = true;
+    macro_rules! edges { ($($t:ty),*) => { $(
+        {
+            let max = <$t>::MAX as u128;
+            for (v, fits) in [(max, true), (max + 1, false)] {
+                if v == 0 { continue; }
+                for f in [format!("{v}"), format!("0x{v:x}"), format!("0b{v:b}"), format!("0{v:o}")] {
+                    let got = CharacterData::String(f).parse_integer::<$t>();
+                    edge_ok &= if fits { got.map(|g| g as u128) == Some(v) } else { got.is_none() };
+                }
+            }
+        }
+    )* } }
+    edges!(u8, i8, u16, i16, u32, i32, u64, i64, usize, isize);
+    writeln!(out, "{}", json!({"kind": "fmt", "text": "MAX and MAX + 1 of every integer width in every lexical form", "inform": true, "finform": false, "exp": {}, "got": {}, "fgot": [], "fexp": {}, "fcanon": {}, "bexp": [], "bool": [], "panic": false, "same": edge_ok})).unwrap();
+    n += 1;
     // every enumeration item: text -> item -> text
     let mut enum_ok = true;
     let mut enum_n = 0;
